@@ -301,8 +301,8 @@ def evaluate_tree(plan, ctx):
 
 
 SUBCHECKS = [
-    SubCheck("clusters", clusters_strategy, evaluate_clusters, quick=2000, thorough=30000),
-    SubCheck("tree", tree_strategy, evaluate_tree, quick=2500, thorough=40000),
+    SubCheck("clusters", clusters_strategy, evaluate_clusters, quick=3000, thorough=30000),
+    SubCheck("tree", tree_strategy, evaluate_tree, quick=4000, thorough=40000),
 ]
 KNOWN = {}
 
